@@ -44,7 +44,7 @@ def generate(seed, tier="quick", faults=True, light=False, **kw):
     paths, dirs, hidden = GC.gen_tree(r, nfiles, hidden=not single, dirs=not single)
     files = []
     for p in paths:
-        files.append({"path": p, "lines": GC.gen_lines(r, ctx, secrets, o, r.randint(0, 14) if nfiles <= 8 else r.randint(0, 3))})
+        files.append({"path": p, "lines": GC.gen_lines(r, ctx, secrets, o, r.randint(0, 14) if nfiles <= 8 else r.randint(0, 3), long_ok=not light)})
         if o["ip"] and r.random() < 0.25:
             files[-1]["lines"].insert(r.randint(0, len(files[-1]["lines"])), GC.directed_line(r))
         if o["ip"] and ctx["a4"] and r.random() < 0.12:
@@ -61,7 +61,7 @@ def generate(seed, tier="quick", faults=True, light=False, **kw):
             files[-1]["lines"].insert(r.randint(0, len(files[-1]["lines"])),
                                       {"segs": [["lit", "ipv6 route "], ["x6", tok], ["lit", " null0"]], "eol": "\n"})
     for p in hidden:
-        files.append({"path": p, "lines": GC.gen_lines(r, ctx, secrets, o, r.randint(1, 3)), "hidden": True})
+        files.append({"path": p, "lines": GC.gen_lines(r, ctx, secrets, o, r.randint(1, 3), long_ok=not light), "hidden": True})
     xdisk = {"dirs": list(dirs), "files": {}}
     in_rel = paths[0] if single else "in"
     out_rel = "out/result.cfg" if single else r.choice(["out", "out", "out/nested/deeper", "res dir"])
